@@ -122,9 +122,13 @@ def scribble(x):
         x.append("SCRIBBLE")
 
 
-def one(ns, conds, acts, mt, via_update=False):
+MARKER_SETS = [None, ("# [Filter] ", "# (Desc)+ "), ("#N ", "#D ")]
+
+
+def one(ns, conds, acts, mt, via_update=False, markers=None):
     """-> None | (stage, clause, text)"""
-    fs = F.new_set(ns)
+    kw = dict(filter_name_pretext=markers[0], filter_desc_pretext=markers[1]) if markers else {}
+    fs = F.new_set(ns, **kw)
     try:
         if via_update == "disabled-rename":
             fs.addfilter("other", [("X", ":is", "y")], [("keep",)])
@@ -155,7 +159,7 @@ def one(ns, conds, acts, mt, via_update=False):
         p = ns.parser.Parser()
         if not p.parse(text):
             raise ValueError("rendering rejected: %s" % p.error)
-        fs2 = F.new_set(ns)
+        fs2 = F.new_set(ns, **kw)
         fs2.from_parser_result(p)
         return readback(fs2, "f")
 
@@ -200,16 +204,17 @@ def form_task(t):
                     conds, acts = [("Subject", ":is", "x")], mk(V)
                 else:
                     conds, acts = mk(V), [("fileinto", "Box")]
-                n += 1
-                bad = one(ns, conds, acts, mt, via_update)
-                distinct.add((value_class(V), mt, bad[:2] if bad else None))
-                if bad:
-                    viols.append({"property": "C19", "engine": "factory", "signature": ["C19", name, value_class(V), bad[0] + ":" + bad[1]],
-                                  "what": "%s value %r (%s): %s" % (name, V, mt, bad[2]),
-                                  "case": {"i": i, "is_action": is_action, "value": V, "mt": mt, "via_update": via_update},
-                                  "witness": "%s value=%r matchtype=%s" % (name, V, mt), "observed": bad[2][:200]})
-                elif sample is None and "," in V:
-                    sample = {"form": name, "value": V, "conditions": repr(conds), "actions": repr(acts)}
+                for markers in (MARKER_SETS if V in ("a", "a, b") and via_update is False else (None,)):
+                    n += 1
+                    bad = one(ns, conds, acts, mt, via_update, markers)
+                    distinct.add((value_class(V), mt, bad[:2] if bad else None))
+                    if bad:
+                        viols.append({"property": "C19", "engine": "factory", "signature": ["C19", name, value_class(V), bad[0] + ":" + bad[1]],
+                                      "what": "%s value %r (%s): %s" % (name, V, mt, bad[2]),
+                                      "case": {"i": i, "is_action": is_action, "value": V, "mt": mt, "via_update": via_update, "markers": list(markers) if markers else None},
+                                      "witness": "%s value=%r matchtype=%s" % (name, V, mt), "observed": bad[2][:200]})
+                    elif sample is None and "," in V:
+                        sample = {"form": name, "value": V, "conditions": repr(conds), "actions": repr(acts)}
     return dict(n=n, distinct=len(distinct), violations=viols, sample=sample)
 
 
@@ -240,7 +245,7 @@ def replay(payload):
         conds, acts = [("Subject", ":is", "x")], mk(V)
     else:
         conds, acts = mk(V), [("fileinto", "Box")]
-    bad = one(ns, conds, acts, c["mt"], c.get("via_update", False))
+    bad = one(ns, conds, acts, c["mt"], c.get("via_update", False), tuple(c["markers"]) if c.get("markers") else None)
     if bad:
         sig = list(payload["signature"])
         sig[3] = bad[0] + ":" + bad[1]
